@@ -320,6 +320,13 @@ pub fn run(ctx: &Ctx) -> i32 {
                 for v in negation_variants(&t) {
                     check(&v, acc);
                 }
+                // explicit grouping nodes (public constructors): transparent
+                check(&Expr::prec(t.clone()), acc);
+                check(&Expr::not(Expr::prec(t.clone())), acc);
+                if let Expr::And(a, b) | Expr::Or(a, b) | Expr::List(a, b) = &t {
+                    check(&Expr::and(Expr::prec((**a).clone()), (**b).clone()), acc);
+                    check(&Expr::or((**a).clone(), Expr::prec((**b).clone())), acc);
+                }
             } else {
                 check(&t, acc);
                 check(&Expr::not(t), acc);
